@@ -669,7 +669,7 @@ def replay(rec):
 def run(ctx):
     quick = ctx.tier == "quick"
     for role in ("server", "client"):
-        ctx.explore(("c02", role, ctx.tier), time_budget=None if quick else 400)
+        ctx.explore(("c02", role, ctx.tier), time_budget=None if quick else 240)
     jobs = []
     for client in (False, True):
         for F in FRAME_LIMITS:
